@@ -79,6 +79,17 @@ func (c *ctx) sourceCopy() {
 			}
 		}
 		if good {
+			// the text between directives and the tail are written verbatim: handed straight to a Write
+			// (or to a helper that does nothing but Write its argument once)
+			for _, x := range sls[1:] {
+				call, ok := fc.par[x.e].(*ast.CallExpr)
+				if !ok || !c.verbatimWrite(fc, call, x.e, 0) {
+					good = false
+					msg = "source text between/after directive calls is not written verbatim (it passes through something other than a plain Write)"
+				}
+			}
+		}
+		if good {
 			// writes to lastOff: init = Offset(f.AST.Package); in loop = Offset(x.End()) after the mid slice
 			nInit, nLoop := 0, 0
 			astx.Writes(fd.Body, func(l ast.Expr, at ast.Node) {
@@ -631,6 +642,69 @@ func (c *ctx) okWriter(fc *fileCtx, e ast.Expr, at ast.Node, depth int) bool {
 	return sites > 0 && good
 }
 
+// verbatimWrite: call writes arg unchanged: a Write method of a buffer/writer, or a stratum-B helper whose
+// body is a single unconditional verbatim write of the corresponding parameter.
+func (c *ctx) verbatimWrite(fc *fileCtx, call *ast.CallExpr, arg ast.Expr, depth int) bool {
+	if depth > 2 {
+		return false
+	}
+	info := fc.pkg.TypesInfo
+	idx := -1
+	for i, a := range call.Args {
+		if astx.Unparen(a) == astx.Unparen(arg) {
+			idx = i
+		}
+	}
+	fn := astx.Callee(info, call)
+	if fn == nil || idx < 0 {
+		return false
+	}
+	switch fn.FullName() {
+	case "(*bytes.Buffer).Write", "(io.Writer).Write", "(*bufio.Writer).Write", "(*strings.Builder).Write", "(*os.File).Write":
+		return true
+	}
+	for _, f2 := range c.files {
+		d := astx.DeclOfFunc(f2.pkg.TypesInfo, []*ast.File{f2.file}, fn)
+		if d == nil || d.Body == nil {
+			continue
+		}
+		// parameter object at idx
+		var param types.Object
+		k := 0
+		for _, fl := range d.Type.Params.List {
+			for _, n := range fl.Names {
+				if k == idx {
+					param = f2.pkg.TypesInfo.Defs[n]
+				}
+				k++
+			}
+		}
+		if param == nil {
+			return false
+		}
+		uses, writes, branches := 0, 0, 0
+		ast.Inspect(d.Body, func(n ast.Node) bool {
+			switch x := n.(type) {
+			case *ast.ForStmt, *ast.RangeStmt, *ast.SwitchStmt, *ast.SelectStmt:
+				branches++
+			case *ast.Ident:
+				if f2.pkg.TypesInfo.Uses[x] == param {
+					uses++
+				}
+			case *ast.CallExpr:
+				for _, a := range x.Args {
+					if astx.IdentObj(f2.pkg.TypesInfo, a) == param && c.verbatimWrite(f2, x, a, depth+1) && len(f2.par.Known(x, d)) == 0 {
+						writes++
+					}
+				}
+			}
+			return true
+		})
+		return uses == 1 && writes == 1 && branches == 0
+	}
+	return false
+}
+
 // callsReach: fd (transitively, through functions declared in stratum B) calls a function named `name`.
 func (c *ctx) callsReach(fc *fileCtx, fd *ast.FuncDecl, name string, seen map[*ast.FuncDecl]bool) bool {
 	if fd == nil || fd.Body == nil || seen[fd] {
@@ -803,6 +877,7 @@ func (c *ctx) typeKeyed() {
 
 // Rules is the G-rule catalogue.
 var Rules = []report.Rule{
+	{ID: "G25", Floor: 3, Props: []string{"C20", "C13"}, Text: "package-level names generated in modifier mode are injective in (file, line, column): every integer component of the name is preceded by a non-digit literal separator"},
 	{ID: "G1", Floor: 6, Props: []string{"C17"}, Text: "every range over a map / typeutil.Map.Keys() only fills sets, emits diagnostics, or builds slices that are sorted before any other use"},
 	{ID: "G2", Floor: 4, Props: []string{"C17"}, Text: "no clock/environment/random/introspection source is consulted except the random magic token, which is read only by the comment printer (source-map mode) and the comment replacer; no go/select in the generator"},
 	{ID: "G3", Floor: 2, Props: []string{"C17"}, Text: "package-level variables are never written after initialisation; Process builds a fresh compiler and generator per file"},
@@ -853,5 +928,6 @@ func Run(repo *load.Repo, s *report.Sink) error {
 	c.dependsOn()
 	c.bounds()
 	c.nilSafety()
+	c.generatedNames()
 	return nil
 }
